@@ -43,7 +43,7 @@ package transform
 //@   mode int
 //@   trusted
 //@   props C15
-//@   ensures result1 == nil ==> tchainvalid(result0)
+//@   ensures result1 == nil ==> tchainvalid(result0) && result0 < 281474976710656
 //@   modifies nothing
 
 //@ func getByteFunctionNameToken
